@@ -57,6 +57,7 @@ fn main() {
         "c01_added_lines" => c01::added_lines(&v),
         "c02_shift" => c02::shift(&v),
         "c02_blob_reader" => c02::blob_reader(&v),
+        "c02_pair_contents" => c02::pair_contents(&v),
         "c02_blob_mode" => c02::blob_mode(&v),
         "c02_replay_step" => c02::replay_step(&v),
         "c02_hook_inert" => c02::hook_inert(&v),
